@@ -291,7 +291,7 @@ def note_low_temperature(chk, fam, text, r):
 def run(chk):
     quick = chk.tier == "quick"
     ok, log = chk.prove(["props/Properties_C17_loops.vo", "extract/Extract_C01.vo", "extract/Extract_ED.vo"],
-                        extra_props=["Properties_C01_source.v"])
+                        extra_props=["Properties_C01_source.v", "Properties_Spine.v"])   # Spine: end-to-end composition of the layers for G
     chk.extra["c17_loops_theorems"] = pv.count_obligations("Properties_C17_loops.v")
     ax17, _ = pv.print_assumptions("Properties_C17_loops.v") if ok else ({}, "")
     chk.extra["c17_loops_axioms"] = ax17
